@@ -691,7 +691,7 @@ def check_send(net, topo, src, kind, dest, rec, payload, limit=WATCHDOG, reply=T
     dist = topo.dist()
     for l in ups:
         shown = ('ls', smac) if l[1][1] == snet else ('rs', snet, smac)
-        if l[2] != shown:
+        if I.strip_route(l[2]) != shown:
             return dict(base, kind='wrong-source-shown', at=str(l[1]), shown=str(l[2]), want=str(shown))
     per_lan = collections.Counter()
     for lan, fsrc, fdst, d in _payload_frames(net.frames, apdu):
@@ -875,7 +875,7 @@ def check_burst(topo, src, sends, limit=WATCHDOG):
             return dict(base, kind='burst-wrong-recipients', payload=apdu[2:].hex(), dest=_jsonable(dest), position=[p for _, _, _, p in sends].index(apdu[2:]),
                         got=sorted(map(str, got.elements())), want=sorted(map(str, want.elements())))
         for l in ups:
-            if l[4] == apdu and l[2] != ('rs', snet, smac):
+            if l[4] == apdu and I.strip_route(l[2]) != ('rs', snet, smac):
                 return dict(base, kind='burst-wrong-source-shown', shown=str(l[2]))
     if any(l[4] not in known for l in ups):
         return dict(base, kind='burst-stray-delivery')
@@ -949,39 +949,47 @@ def direct(rng, tier, focus=()):
         if f is not None:
             failures.append(f)
 
-    # --- trees: every (source, kind, destination), cold start, caches warming as traffic flows
-    for t in range(_n(160 if big else 36)):
-        topo = rnd_tree(rng, 8 if t % 2 == 0 else 5)
-        triples = [(src, kind, dest, rec) for src in topo.station_ids for (kind, dest, rec) in all_dests(topo, src)]
-        rng.shuffle(triples)
-        net = build(topo)
-        budget = len(triples) if big or t < 8 else 60
-        for k, (src, kind, dest, rec) in enumerate(triples[:budget]):
-            f = check_send(net, topo, src, kind, dest, rec, bytes([t % 256, k % 256, k // 256]))
-            n_eval += 1
-            hist[kind + ('/cold' if k == 0 else '/warming')] += 1
-            nontriv.add((t, k))
-            note(f)
-            if f is not None:
-                break
-        # cold: each on a fresh internetwork
-        for k, (src, kind, dest, rec) in enumerate(triples[:40 if big else 10]):
+    # --- trees, twice: with settings.route_aware off (default) and on (the source shown then carries the route, and
+    #     a reply to it takes the route-aware branch of NetworkServiceAccessPoint.indication)
+    for ra in (False, True):
+      with I.RouteAware(ra):
+        before = len(failures)
+        tag = '/route-aware' if ra else ''
+        # --- trees: every (source, kind, destination), cold start, caches warming as traffic flows
+        for t in range(_n((160 if big else 36) // (2 if ra else 1))):
+            topo = rnd_tree(rng, 8 if t % 2 == 0 else 5)
+            triples = [(src, kind, dest, rec) for src in topo.station_ids for (kind, dest, rec) in all_dests(topo, src)]
+            rng.shuffle(triples)
             net = build(topo)
-            note(check_send(net, topo, src, kind, dest, rec, bytes([t % 256, k, 0xcc])))
-            n_eval += 1
-            hist[kind + '/cold'] += 1
-            nontriv.add((t, 'cold', k))
-        # installed (correct) caches
-        net = build(topo)
-        for e in warm_events(topo):
-            node_of(net, topo, e[1]).learn(e[2], e[3], e[4])
-        for k, (src, kind, dest, rec) in enumerate(triples[:40 if big else 12]):
-            note(check_send(net, topo, src, kind, dest, rec, bytes([t % 256, k, 0xaa])))
-            n_eval += 1
-            hist[kind + '/installed'] += 1
-            nontriv.add((t, 'warm', k))
-        if t == 0:
-            samples.append({'direct': 'tree', 'topology': topo.describe(), 'combinations': len(triples)})
+            budget = len(triples) if big or t < 8 else 60
+            for k, (src, kind, dest, rec) in enumerate(triples[:budget]):
+                f = check_send(net, topo, src, kind, dest, rec, bytes([t % 256, k % 256, k // 256]))
+                n_eval += 1
+                hist[kind + ('/cold' if k == 0 else '/warming') + tag] += 1
+                nontriv.add((ra, t, k))
+                note(f)
+                if f is not None:
+                    break
+            # cold: each on a fresh internetwork
+            for k, (src, kind, dest, rec) in enumerate(triples[:40 if big else 10]):
+                net = build(topo)
+                note(check_send(net, topo, src, kind, dest, rec, bytes([t % 256, k, 0xcc])))
+                n_eval += 1
+                hist[kind + '/cold' + tag] += 1
+                nontriv.add((ra, t, 'cold', k))
+            # installed (correct) caches
+            net = build(topo)
+            for e in warm_events(topo):
+                node_of(net, topo, e[1]).learn(e[2], e[3], e[4])
+            for k, (src, kind, dest, rec) in enumerate(triples[:40 if big else 12]):
+                note(check_send(net, topo, src, kind, dest, rec, bytes([t % 256, k, 0xaa])))
+                n_eval += 1
+                hist[kind + '/installed' + tag] += 1
+                nontriv.add((ra, t, 'warm', k))
+            if t == 0:
+                samples.append({'direct': 'tree', 'topology': topo.describe(), 'combinations': len(triples)})
+        for f in failures[before:]:
+            f['route_aware'] = ra
     # --- bursts on cold trees: several packets for one remote network handed down before the path is known
     for t in range(_n(400 if big else 60)):
         topo = rnd_tree(rng, 6 if t % 2 else 3)
@@ -1082,6 +1090,11 @@ def classify(f):
 def replay(payload):
     f = payload.get('failure') or (payload.get('broken') or [{}])[0].get('minimal_case', {}).get('desc', {})
     print('replay', str(f)[:1500])
+    with I.RouteAware(bool(f.get('route_aware'))):
+        _replay(f)
+
+
+def _replay(f):
     if 'events' in f and 'ports' in f:
         ports = [(n, None if m is None else bytes.fromhex(m)) for n, m in f['ports']]
         ev = [_unjson(e) for e in f['events']]
